@@ -1,6 +1,6 @@
 """C06 — StreamReader: the standard judge, record gating, per-record reset, offsets; refill progress shared with C08."""
 from .util import *  # noqa: F401,F403
-from . import c08
+from . import c08, c07, c17
 from engine.woodlint.db import Pos, as_relation, show
 
 PROPERTY = 'C06'
@@ -20,11 +20,14 @@ chunk and its end follows every Data chunk; (R6.5 = R8.1-R8.4) the chunker the r
 io_block_size (defect F1: block sizes 0 and 1 silently lost every record), offsets, non-empty Data / honest
 Eof and the split position (a sentinel hidden inside or split across Data chunks glues records together).
 NOT decided: which records come out for a given byte stream (value-level), resynchronisation as a whole.
+(R6.6 = R7.3, R7.4) the decoder the reader drives accepts exactly the format (header codec, validation guards
+unbypassable); (R6.7 = R17.1-R17.3) the refill accumulates short reads, retries interrupted calls and does not
+report a stale error at end of stream.
 """
 
 ASSUMPTIONS = ['C08 (chunker) and C07 (decoder) clauses', 'Decoder::finish returns Ok only for complete input (C07 R7.4)']
 
-FLOORS = {'R6.1': 4, 'R6.2': 7, 'R6.3': 1, 'R6.4': 3, 'R6.5': 18}
+FLOORS = {'R6.1': 4, 'R6.2': 7, 'R6.3': 1, 'R6.4': 3, 'R6.5': 18, 'R6.6': 28, 'R6.7': 13}
 
 NRB = 'hcobs::stream_reader::StreamReader::next_record_bytes'
 
@@ -233,4 +236,14 @@ def r6_5(cx):
         cx.records.append(r)
 
 
-RULES = [('R6.1', r6_1), ('R6.2', r6_2), ('R6.3', r6_3), ('R6.4', r6_4), ('R6.5', r6_5)]
+def r6_6(cx):
+    """the decoder the reader stands on accepts exactly the format: header codec and validation guards (R7.3, R7.4)"""
+    compose(cx, [('R7.3', c07.r7_3), ('R7.4', c07.r7_4)])
+
+
+def r6_7(cx):
+    """the refill the reader stands on: short reads accumulate, interrupted calls retry, end of stream is not an error (R17.1-R17.3)"""
+    compose(cx, [('R17.1', c17.r17_1), ('R17.2', c17.r17_2), ('R17.3', c17.r17_3)])
+
+
+RULES = [('R6.1', r6_1), ('R6.2', r6_2), ('R6.3', r6_3), ('R6.4', r6_4), ('R6.5', r6_5), ('R6.6', r6_6), ('R6.7', r6_7)]
